@@ -82,6 +82,9 @@ def _awkward():
         "contains_int": lambda: Rule.annotate(list, constraints={"contains": int}),
         "contains_float_max1": lambda: Rule.annotate(list, constraints={"contains": float, "max_contains": 1}),
         "tuple_contains_decimal": lambda: Rule.annotate(tuple, constraints={"contains": __import__("decimal").Decimal, "min_contains": 1}),
+        # abstract element-wise types fed one-shot iterators: every item is converted BEFORE the parse returns
+        "iterator_of_int": lambda: _rule(t.Iterator[int]),
+        "iterator_of_date": lambda: _rule(t.Iterator[__import__("datetime").date]),
         "discriminated_union": _disc,
         # a plain data class called directly with string keys that look like names of its own machinery
         "plain_schema": lambda: _plain(False),
@@ -164,6 +167,16 @@ def run_case(case):
         flags = getattr(fn, "flags", None)
         if flags and flags.get("entered"):
             res["fails"].append(("body-entered-despite-parse-error", {"exception": type(e).__name__}))
+    if out[0] == "ok" and spec.get("k") == "awkward" and spec["name"].startswith("iterator_") and out[1] is not entries.ABSENT and not isinstance(out[1], (str, bytes)):
+        # the parse said "valid": walking through the result must not bring a failure to light afterwards
+        late = oracle.outcome(lambda: list(out[1]))
+        if late[0] in ("perr", "other"):
+            res["fails"].append((f"failure-deferred-past-the-parse/{spec['name']}/{type(late[1]).__name__}", {"error": str(late[1])[:160], "entry": entry}))
+            return res
+        want_t = int if spec["name"] == "iterator_of_int" else __import__("datetime").date
+        if late[0] == "ok" and not all(isinstance(e, want_t) for e in late[1]):
+            res["fails"].append((f"unconverted-item-behind-a-valid-parse/{spec['name']}", {"items": oracle.short(late[1]), "entry": entry}))
+            return res
     if out[0] == "ok":
         res["changed"] = not oracle.equal(out[1], x)
         if opts.get("collect_errors") and entry not in ("call", "transform"):
@@ -252,6 +265,7 @@ def campaign(ctx):
                      {"t": "dict", "v": [["item", {"t": "dict", "v": [["kind", {"t": "list", "v": []}], ["x", 1]]}]]}, {"t": "dict", "v": [["item", {"t": "dict", "v": [["kind", {"t": "dict", "v": []}]]}]]},
                      {"t": "dict", "v": [["item", {"t": "dict", "v": [["kind", "a"], ["x", "2"]]}]]}, {"t": "dict", "v": [["item", {"t": "dict", "v": [["kind", "zz"]]}]]}, {"t": "dict", "v": [["item", 5]]},
                      {"t": "dict", "v": [["item", {"t": "dict", "v": [["kind", {"t": "obj"}]]}]]}, {"t": "dict", "v": [["item", {"t": "dict", "v": [["kind", F("nan")]]}]]},
+                     {"t": "iter", "v": ["1", "x", 3]}, {"t": "gen", "v": [1, "2", None]}, {"t": "iter", "v": ["1", 2]}, {"t": "gen", "v": ["2020-01-02", "zz"]}, {"t": "iter", "v": []},
                      {"t": "dict", "v": [["_obj_self", 1]]}, {"t": "dict", "v": [["_d", 1], ["a", "2"]]}, {"t": "dict", "v": [["_d", {"t": "dict", "v": [["a", "x"]]}]]}, {"t": "dict", "v": [["self", 1], ["cls", 2]]},
                      {"t": "dict", "v": [["kwargs", {"t": "dict", "v": []}], ["args", {"t": "list", "v": []}]]}, {"t": "dict", "v": [["__class__", 1], ["__dict__", {"t": "dict", "v": []}]]},
                      {"t": "dict", "v": [["a", 1], ["__options__", 3], ["__context__", None]]}, {"t": "dict", "v": [["", 1], ["a b", 2], ["é", 3]]}]
